@@ -24,6 +24,26 @@ CLAIMED = {
             "Exploration: return values of every gate function, compute_current, synaptic update and the parameter/state tables are compared with a 50-digit mpmath oracle written from HH 1952 / Pospischil 2008 / Abbott-Marder 1998 on singular, near-singular, clipped and generic voltages; renamed instances must be bit-identical with keys re-prefixed for random prefix chains.",
             "Trusts the transcription R2 (HH part cross-checked against NEURON 9 compiled hh mechanism in setup.sh; Pospischil/Abbott-Marder part from the papers only). Known finding F12 (CaT tau_u above -20 mV) is reported as KNOWN-FINDING.",
             "DESIGN.md section 4 C04"),
+    "C05": ("finite-difference oracle (central differences, float64, three step sizes) against jit(grad) through integrate; forward- vs reverse-mode cross-check",
+            "Exploration: for randomly generated active models every component of jax.grad of a simulated loss is compared with converged central finite differences of the same jitted loss; trainables cover channel and synapse parameters, radius, length, axial resistivity, capacitance, initial voltage and gate states, a data-fed stimulus amplitude and a data_set value, shared per compartment/branch/cell/group with unequal group sizes, alone (single-family cases) and combined, over solvers x backends x checkpoint layouts; jvp against vjp along random directions.",
+            "Differentiable points only; FD noise floor 1e-7 relative, acceptance 2e-5 relative.",
+            "DESIGN.md section 4 C05"),
+    "C06": ("differential monitor over execution modes (eager/jit/vmap/checkpoint/retrace) + purity snapshots of module and caller-owned inputs + bit-identity of repeated calls",
+            "Exploration: one simulation per case is executed by the default path, repeatedly, under jax.jit (twice), after a previous trace (jit then jit(grad) of a view-creating function), under jax.disable_jit, under vmap over stimuli and over parameters (vs a python loop) and with checkpoint layouts of depth 1-3 (product = and > steps); outputs must agree to 1e-8, repeats bit-identically; module tables, inputs, recordings, trainables, groups and the caller's param_state are snapshotted before/after every call and must not change.",
+            "jaxnodes/jaxedges are caches and are not compared, but a later transformation failing because of them is a violation (mode retrace).",
+            "DESIGN.md section 4 C06"),
+    "C07": ("differential monitor over split/continued/manual-stepped runs + direct state monitor (returned all_states vs last recorded column) over checkpoint layouts",
+            "Exploration: N-step runs of active models (all recordable states recorded, trainable initial states in half of the cases) are compared with the same run split into 2-4 pieces chained through return_states/all_states (stimulus tail via data_stimulate), with manual init_fn/step_fn stepping, and the returned state dict is compared entry by entry with the last returned column for checkpoint layouts with product = and > N. Known finding F6 is reported as KNOWN-FINDING.",
+            "The one-call run is the reference for the pieces; tolerance 1e-9 relative.",
+            "DESIGN.md section 4 C07"),
+    "C08": ("offline checker over the harness's call log: multi-step R1 reference for passive networks; unique-value tagging for row identity; clamp-hold, t_max and data-route identities; JAX checkify index sanitizer",
+            "Exploration: random interleavings of record/stimulate/clamp calls on random views; (A) channel-free capacitor networks: the whole output matrix is compared with a reference driven by the log of requested inputs (row order, time alignment, target compartment, additivity, charge), t_max padding/truncation and data_stimulate equivalence; (B) HH/K + three interleaved synapse types with a unique value in every state: column 0 identifies what each row really reads (compartment states, channel currents, synaptic states and currents), clamps (incl. repeated and data_clamp) hold their samples; checkify(index_checks) on the thomas backend as supplementary sanitizer.",
+            "R1 as reference for passive cases; row i of a stimulus goes to the i-th compartment of the view as shown by view.nodes.",
+            "DESIGN.md section 4 C08"),
+    "C09": ("reference-model monitor: independent synaptic reference simulator (Abbott-Marder closed form + absolute point currents in the R1 system) over recorded voltages; order/zero-conductance differentials",
+            "Exploration: networks with 1-12 edges (autapses, fan-in/out, duplicate pairs, 1-3 interleaved synapse types, unique per-edge parameters) are simulated for 1-5 steps and every compartment voltage is compared with a reference that reads only the .edges semantics (state from the OLD pre voltage, current into the POST compartment as absolute nA), accepting both first-order-consistent secant forms; small-dt charge attribution with TanhRateSynapse; creation-order permutations; zero conductance vs cells alone; parameters set through edge/synapse-type views and geometry of post compartments fed at integrate time.",
+            "Scheme-ambiguity set for the secant of pre-voltage dependent currents; passive membranes so that the step is linear.",
+            "DESIGN.md section 4 C09"),
     "C10": ("reference-model monitor (R4 scatter with unique-value tagging) over get_all_parameters/get_all_states/write_trainables + three-route differential simulation",
             "Exploration: after sequences of make_trainable calls on views reached by random selection chains (views that exclude the module's last row, shared parameters over groups of unequal size, node keys, edge keys, initial states) the parameter and state arrays actually used for simulation must equal the reference scatter computed from the independent view model, every unselected row keeping its uniquely tagged table value; write_trainables must store exactly those arrays; set / data_set / make_trainable+params must give identical arrays and simulations.",
             "Trusts the sharing rule stated in DESIGN.md (last selection step decides the grouping) and R4.",
